@@ -180,7 +180,7 @@ func c10(c *core.Ctx) {
 			if mn := ci.Common().Method.Name(); mn != "Do" && mn != "Send" {
 				return
 			}
-			cst, ok := ci.Common().Args[0].(*ssa.Const)
+			cst, ok := rawArgs(ci)[0].(*ssa.Const)
 			if !ok || cst.Value == nil || cst.Value.Kind() != constant.String || constant.StringVal(cst.Value) != "lrem" {
 				return
 			}
